@@ -72,6 +72,7 @@ type tracker struct {
 	perPTS           map[uint64]int
 	pat              map[string]bool
 	pendingBreakaway bool
+	kept             []keptList
 }
 
 func newTracker(c *mon.Ctx) *tracker {
@@ -104,6 +105,23 @@ func (t *tracker) names(ds []D) string {
 func (t *tracker) register(d D, typ byte, ev uint32, pts uint64, hasPTS bool) {
 	t.inf[d] = info{len(t.all), typ, ev, pts, hasPTS}
 	t.all = append(t.all, d)
+}
+
+type keptList struct {
+	list []D
+	snap []D
+	at   int
+}
+
+// checkKept: closed lists returned by earlier calls belong to the caller and stay what they were.
+func (t *tracker) checkKept(after string) bool {
+	for _, k := range t.kept {
+		if !same(k.list, k.snap) {
+			t.fail("closed:earlier-list-changed", fmt.Sprintf("the closed list returned by call %d (%s) was changed by a later %s: now %s", k.at, t.names(k.snap), after, t.names(k.list)))
+			return false
+		}
+	}
+	return true
 }
 
 func (t *tracker) known(d D) bool { _, ok := t.inf[d]; return ok }
@@ -172,6 +190,12 @@ func (t *tracker) process(d D) {
 		return
 	}
 	i := t.inf[d]
+	// the signal's PTS is what it is at the time of the call (a signal can lose / gain its time between calls)
+	i.hasPTS = d.SCTE35().HasPTS()
+	if i.hasPTS {
+		i.pts = uint64(d.SCTE35().PTS())
+	}
+	t.inf[d] = i
 	if i.hasPTS {
 		t.perPTS[i.pts]++
 	}
@@ -225,6 +249,12 @@ func (t *tracker) process(d D) {
 	}
 	t.lastRej = false
 	t.n++
+	if !t.checkKept("ProcessDescriptor") {
+		return
+	}
+	if len(closed) > 0 {
+		t.kept = append(t.kept, keptList{list: closed, snap: append([]D{}, closed...), at: len(t.hist)})
+	}
 	prev := 1 << 30
 	for _, cl := range closed {
 		switch {
@@ -312,6 +342,9 @@ func (t *tracker) close(d D) {
 		return
 	}
 	t.c.Count("event.close_hit")
+	if !t.checkKept("Close") {
+		return
+	}
 	for _, cl := range closed {
 		if cl == nil || !t.live[cl] {
 			t.fail("close:closed-not-open", fmt.Sprintf("Close reported %s closed but it was not open before the call", t.name(cl)))
@@ -430,6 +463,33 @@ func random(c *mon.Ctx, r *gen.Rand) {
 			t.close(d)
 		default:
 			t.probe()
+		}
+		if r.Chance(15) {
+			// two descriptors on one signal; the signal loses (or regains) its time between the two calls
+			pts += 100
+			d1 := scte35.CreateSegmentationDescriptor()
+			d2 := scte35.CreateSegmentationDescriptor()
+			d1.SetTypeID(0x30)
+			d1.SetEventID(uint32(1 + r.Intn(2)))
+			d2.SetTypeID(0x34)
+			d2.SetEventID(uint32(1 + r.Intn(2)))
+			sg := scte35.CreateSCTE35()
+			ts := scte35.CreateTimeSignalCommand()
+			ts.SetHasPTS(true)
+			ts.SetPTS(gots.PTS(pts))
+			sg.SetCommandInfo(ts)
+			sg.SetPTS(gots.PTS(pts))
+			sg.SetDescriptors([]D{d1, d2})
+			t.register(d1, 0x30, d1.EventID(), pts, true)
+			t.register(d2, 0x34, d2.EventID(), pts, true)
+			t.process(d1)
+			if r.Bool() {
+				ts.SetHasPTS(false)
+			} else {
+				sg.SetCommandInfo(scte35.CreateSpliceNull())
+			}
+			t.pat["signal-lost-its-time-between-calls"] = true
+			t.process(d2)
 		}
 	}
 	t.finish("random")
